@@ -51,6 +51,10 @@ class Ctx:
                 from . import inline
                 self.inlined_bodies = inline.enable(p, self.inline_keep)
             self._progs[cfg] = p
+            rn = getattr(p, "renames", None) or {}
+            if any(rn.values()):
+                self.note("renamed items mapped back to the names the rules use (lib/rename.py): %s" %
+                          "; ".join("%s -> %s" % (k, v) for part in ("types", "variants", "fields", "fns") for k, v in sorted(rn.get(part, {}).items())))
         return self._progs[cfg]
 
     # ---- recording
